@@ -375,6 +375,17 @@ func (e *env) runAll() {
 		}
 	}
 
+	if c.Thorough() {
+		// exhaustive small scope: every single-read size around the frame limit on every scripted path
+		for _, p := range []string{"exit", "forward", "shellpty", "shellout", "file"} {
+			for n := 16200; n <= 16460; n++ {
+				e.runOne(caseRec{Layer: "L1", Path: p, Blocks: []int{n}})
+			}
+		}
+		c.Res.Extra["exhaustive"] = true
+		c.Res.Extra["exhaustive_scope"] = "single block sizes 16200..16460 on the five scripted sender loops"
+	}
+
 	// end to end through real receivers
 	e.runE2E()
 }
